@@ -105,3 +105,6 @@ Print Assumptions C01_add_page_report.
 Print Assumptions C01_spec_pages.
 Print Assumptions C01_spec_resubmit.
 Print Assumptions C01_nonvacuous.
+
+(* accessor/constant table regenerated from the source: re-checked with this property *)
+From Traph Require AccessorFacts.
